@@ -40,7 +40,10 @@ pub fn gen_tiles_shape(rng: &mut Rng, big: bool, shape: u64) -> TileMap {
 		}
 		1 => { // across the 256 block border at z = 9..10
 			let z = rng.range(9, 10) as u8;
-			for x in 253..=258u32 { for y in 254..=257u32 { if rng.chance(3, 4) { put(&mut m, rng, z, x, y, None); } } }
+			// the same small payloads occur on both sides of the border (de-duplication is a matter of one block)
+			let (sea, land) = (vec![3u8; 120], vec![4u8; 999]);
+			for x in 253..=258u32 { for y in 254..=257u32 { match rng.below(8) { 0 | 1 => {} 2 | 3 => put(&mut m, rng, z, x, y, Some(&sea)), 4 => put(&mut m, rng, z, x, y, Some(&land)), _ => put(&mut m, rng, z, x, y, None) } } }
+			put(&mut m, rng, z, 255, 255, Some(&sea)); put(&mut m, rng, z, 256, 255, Some(&sea)); put(&mut m, rng, z, 255, 256, Some(&sea));
 		}
 		2 => { // dense low pyramid
 			for z in 0..=rng.range(1, 4) as u8 { let mx = (1u32 << z) - 1; for x in 0..=mx { for y in 0..=mx { if rng.chance(9, 10) { put(&mut m, rng, z, x, y, None); } } } }
@@ -62,7 +65,13 @@ pub fn gen_tiles_shape(rng: &mut Rng, big: bool, shape: u64) -> TileMap {
 		5 => { // sparse tiles in distant blocks (empty blocks in between)
 			let z = rng.range(10, 12) as u8;
 			put(&mut m, rng, z, 5, 5, None); put(&mut m, rng, z, 600, 5, None);
-			if rng.chance(1, 2) { put(&mut m, rng, z, 300, 700, None); }
+			// (a third tile keeps block column 1 empty and the level box small enough for the model's slot enumeration)
+			if rng.chance(1, 2) { let y = 100 + rng.below(100) as u32; put(&mut m, rng, z, 700, y, None); }
+		}
+		7 => { // a dense rectangle of more than 1024 tiles on one level (readers that page through their store), tiny payloads
+			let z = rng.range(6, 7) as u8; let (x0, y0) = (rng.below(20) as u32, rng.below(20) as u32);
+			let (w, h) = (36 + rng.below(6) as u32, 32 + rng.below(6) as u32);
+			for x in x0..x0 + w { for y in y0..y0 + h { if !(x == x0 + 3 && y == y0 + 5) { m.insert((z, x, y), vec![((x * 31 + y * 7) % 251) as u8, (x % 256) as u8, (y % 256) as u8]); } } }
 		}
 		_ => { // single tile, borders of level 0 / deep level
 			let z = *rng.pick(&[0u8, 1, 20, 30]); let mx = ((1u64 << z) - 1) as u32;
@@ -378,7 +387,8 @@ pub fn run_into(ctx: &Ctx, focus: &str, col: &mut Collector) -> Result<()> {
 		(TileFormat::PBF, TileCompression::Uncompressed), (TileFormat::JPG, TileCompression::Uncompressed), (TileFormat::WEBP, TileCompression::Uncompressed), (TileFormat::BIN, TileCompression::Gzip)];
 	for i in 0..n {
 		let big = ctx.thorough && i % 40 == 7;
-		let tiles = gen_tiles_shape(&mut rng, big, i as u64 % 7);
+		let tiles = gen_tiles_shape(&mut rng, big, i as u64 % 8);
+		*stats.entry(format!("shape{}_tiles", i % 8)).or_insert(0) += tiles.len() as u64;
 		all_coords.extend(tiles.keys().cloned().take(60));
 		let tj = tilejson(&mut rng);
 		for c in CONTAINERS {
